@@ -1,6 +1,6 @@
 SPECIFICATION Spec
-CONSTANT OptNs = {2, 3, 5, 12, 101}
-CONSTANT OptEms = {"identity", "reversed", "stride", "byname"}
+CONSTANT OptNs = {2, 3, 5, 12, 21}
+CONSTANT OptEms = {"reversed", "stride", "byname"}
 CONSTANT OptPads = {"end", "alternate"}
 CONSTANT MaxLen = 3
 CONSTANT Repeat = TRUE
